@@ -127,9 +127,10 @@ class KernelSim(WorldBase):
             flows = K.all_flows(case, g, tilings=g.random() < 0.3)
             flow = g.choice(flows)
             reg = [x + [False] for x in all_reg(flow["order"])]
+            warm = g.random() < 0.25
             for t in THRESHOLDS:
                 evs.append(["session", {"role": "sweep", "flow": flow, "prefix": "s", "reg": reg, "ncu": t,
-                                        "end": "normal"}])
+                                        "end": "normal", "warmup": warm}])
             if g.random() < 0.5:
                 # a kernel over a flattened rank (tuple coordinates, Metrics.associateShape)
                 M, Kk, N = g.randint(1, 3), g.randint(1, 3), g.randint(1, 4)
@@ -392,6 +393,10 @@ class KernelSim(WorldBase):
             Metrics.beginCollect(prefix if role != "isect" else None)
             if s.get("ncu"):
                 Metrics.setNumCachedUses(s["ncu"])
+            if s.get("warmup"):
+                # the traces are requested only after a first pass of the kernel has run in this session
+                K.run_kernel(self.case, self.tensors, flow, K.Counts())
+                self.probe("traces_registered_after_warmup")
             for rank, typ, cons in s["reg"]:
                 both = cons and ((self.prop == "C15" and hash_stable(rank + typ) % 2 == 0) or role == "consume")
                 if both and (hash_stable(typ + rank) + s.get("mask", 0)) % 2 == 0:
